@@ -417,12 +417,21 @@ func (in *Interp) sameScalar(addr *value, v value) bool {
 	if _, frozen := in.frozen[addr]; !frozen {
 		return false
 	}
-	ot, ok1 := (*addr).(*Term)
-	nt, ok2 := v.(*Term)
-	if !ok1 || !ok2 || ot.W != nt.W {
-		return false
+	var diff *Term
+	if os, isStr := (*addr).(*Str); isStr {
+		ns, ok := v.(*Str)
+		if !ok {
+			return false
+		}
+		diff = Not(in.strEq(os, ns))
+	} else {
+		ot, ok1 := (*addr).(*Term)
+		nt, ok2 := v.(*Term)
+		if !ok1 || !ok2 || ot.W != nt.W {
+			return false
+		}
+		diff = Not(Eq(ot, nt))
 	}
-	diff := Not(Eq(ot, nt))
 	if diff.Const {
 		return diff.IsFalse()
 	}
